@@ -496,7 +496,10 @@ class TextMatcher:
         elif isinstance(prop, str):
             matches = self.collation(self.text, prop, "equals")
         elif isinstance(prop, vCategory):
-            matches = any([self.match(cat) for cat in prop.cats])
+            # (not self.match(cat): that would apply negate-condition twice)
+            matches = any(
+                [self.collation(self.text, str(cat), "equals") for cat in prop.cats]
+            )
         else:
             logging.warning(
                 "potentially unsupported value in text match search: " + repr(prop)
